@@ -216,3 +216,18 @@ Proof.
   unfold query_safe. intros H. rewrite forallb_forall in *. intros x Hx. apply H in Hx. apply safe_char_props in Hx.
   destruct Hx as [Q [P _]]. rewrite Q, P. reflexivity.
 Qed.
+
+(* general form: a well-formed piece can be followed by anything *)
+Lemma query_wf_app_len n : forall a b, (length a <= n)%nat -> query_wf a = true -> query_wf (a ++ b) = query_wf b.
+Proof.
+  induction n as [|n IH]; intros a b L H.
+  - destruct a; [reflexivity|cbn [length] in L; lia].
+  - destruct a as [|c rest]; [reflexivity|]. cbn [length] in L. cbn [query_wf] in H. cbn [app query_wf].
+    destruct (c =? PCT).
+    + destruct rest as [|h [|l rest']]; try discriminate. cbn [app].
+      apply andb_prop in H. destruct H as [H W]. rewrite H. cbn [andb]. apply IH; [cbn [length] in L; lia|exact W].
+    + apply andb_prop in H. destruct H as [Q W]. rewrite Q. cbn [andb]. apply IH; [lia|exact W].
+Qed.
+
+Lemma query_wf_app a b : query_wf a = true -> query_wf (a ++ b) = query_wf b.
+Proof. apply (query_wf_app_len (length a)). lia. Qed.
